@@ -32,6 +32,8 @@ pub struct Monitor {
     alltime: Vec<BTreeSet<String>>,
     created_now: Vec<BTreeSet<String>>,
     manifests: BTreeMap<(usize, String), String>,
+    /// label -> digest at first publication, never forgotten
+    pub ever: BTreeMap<String, String>,
     pub violations: Vec<String>,
     pub states: BTreeSet<String>,
     pub checks: u64,
@@ -52,6 +54,7 @@ impl Monitor {
             alltime: vec![BTreeSet::new(); shards],
             created_now: vec![BTreeSet::new(); shards],
             manifests: BTreeMap::new(),
+            ever: BTreeMap::new(),
             violations: Vec::new(),
             states: BTreeSet::new(),
             checks: 0,
@@ -138,6 +141,7 @@ impl Monitor {
                 }
                 match self.manifests.get(&(s, seg.clone())) {
                     None => {
+                        self.ever.entry(format!("shard-{s}/{seg}")).or_insert(now.clone());
                         self.manifests.insert((s, seg), now);
                     }
                     Some(old) if *old != now => {
